@@ -226,7 +226,9 @@ SPECS["C16"] = dict(
                 budget={"quick": 60, "thorough": 300}),
            dict(name="wiring", pkg="internal/upstream", run="TestVerifC17Addr", go="go1.26", env=E3ENV, engines=E3ENGINES,
                 files=dict(UPSTREAM_COMMON, **{"harness/upstream/zz_verif_c17_test.go": "internal/upstream/zz_verif_c17_test.go"}),
-                params={"quick": {"SCHEMES": ",udp"}, "thorough": {"SCHEMES": ",udp"}}, budget={"quick": 60, "thorough": 60})],
+                params={"quick": {"SCHEMES": ",udp"}, "thorough": {"SCHEMES": ",udp"}}, budget={"quick": 60, "thorough": 60}),
+           dict(name="real-udp", pkg="internal/upstream", run="TestVerifC16Real", go="go", engines=("report", "refdns", "env", "sched", "choice"), shards=1, gomaxprocs=4,
+                files={"harness/upstream/zz_verif_c16real_test.go": "internal/upstream/zz_verif_c16real_test.go"}, budget={"quick": 120, "thorough": 120})],
 )
 
 
@@ -372,7 +374,9 @@ SPECS["C15"] = dict(
                 files={"harness/limiter/zz_verif_c15e2_test.go": "internal/limiter/zz_verif_c15e2_test.go"},
                 generate=rewrite_imports("internal/limiter/client_limiter.go", {"sync": ("sync", "vsync"), "github.com/puzpuzpuz/xsync/v3": ("xsync", "vxsync")}),
                 params={"quick": {"PREEMPTIONS": 3}, "thorough": {"PREEMPTIONS": 6}}, budget={"quick": 60, "thorough": 600}),
-           router_part("quic", "TestVerifC15Quic", ["zz_verif_c15quic_test.go", "zz_verif_c03_test.go"], shards=1)],
+           router_part("quic", "TestVerifC15Quic", ["zz_verif_c15quic_test.go", "zz_verif_c03_test.go"], shards=1),
+           dict(name="udp-multi-route", pkg="app/router", run="TestVerifC15MultiRoute", go="go", engines=("report", "refdns", "env", "sched", "choice"), shards=1, gomaxprocs=4,
+                files={"harness/router/zz_verif_c15mr_test.go": "app/router/zz_verif_c15mr_test.go"}, budget={"quick": 120, "thorough": 120})],
 )
 
 SPECS["C17"] = dict(
